@@ -27,14 +27,11 @@ pub fn ref_alpha_match(def_head: &[u8], cand: &[u8]) -> bool {
     eq_nocase(def_head, cand) || eq_nocase(&def_head[..sl], cand)
 }
 
-/// Suffix value with "absent means 1". Suffixes are compared as numbers written without
-/// leading zeros; a form with leading zeros is returned as None (no verdict: the property only
-/// lists "treating 01 as 1" as a possible regression, it does not define it either way).
+/// Suffix with "absent means 1". Suffixes are compared as written: the property's own list of
+/// typical regressions names "treating suffix `01` as 1", so `01` is a different suffix from `1`.
 pub fn suffix_canon(d: &[u8]) -> Option<&[u8]> {
     if d.is_empty() {
         Some(b"1")
-    } else if d.len() > 1 && d[0] == b'0' {
-        None
     } else {
         Some(d)
     }
@@ -76,7 +73,9 @@ mod tests {
         assert_eq!(ref_match(b"TRIGger2", b"trig"), Some(false));
         assert_eq!(ref_match(b"TRIGger2", b"trig2"), Some(true));
         assert_eq!(ref_match(b"CHANnel1", b"chan"), Some(true));
-        assert_eq!(ref_match(b"CHANnel", b"chan01"), None);
+        assert_eq!(ref_match(b"CHANnel", b"chan01"), Some(false));
+        assert_eq!(ref_match(b"CHANnel2", b"chan02"), Some(false));
+        assert_eq!(ref_match(b"L01", b"l01"), Some(true));
         assert_eq!(ref_match(b"L125", b"l125"), Some(true));
         assert_eq!(ref_match(b"L125", b"l"), Some(false));
     }
